@@ -325,6 +325,7 @@ def family(max_n=130):
                     "b.implicit_assertion = ImplicitAssertion::from(\"ctx\");", "let _ = b;"]), False,
                     "field assignment of an implicit assertion on %s<V%d, %s>" % (ty, v, purpose)))
     out.extend(conversion_table_programs(max_n))
+    out.extend(assoc_programs(harvested_names()))
     seen = set()
     for p in out:
         assert p.ident not in seen, p.ident
@@ -456,6 +457,76 @@ def table_violations(p, errs):
     return out
 
 
+# ---- associated functions of the types that must not be constructible: `let _ = <T>::name;` compiles iff an associated
+#      function (inherent or through a trait in scope) of that name exists for T, whatever its signature. The names tried are
+#      every function name that occurs in the library's own source (so a newly added function is always among them) plus
+#      the conventional constructor names. A name beyond the ones every type has (as_ref, from, try_from ...) is then
+#      called in 26 constructor forms; if one of them type-checks, a value of the forbidden type has been made.
+CONVENTIONAL_NAMES = ["new", "try_new", "new_random", "try_new_random", "random", "generate", "try_generate", "from_bytes", "try_from_bytes", "from_slice",
+                      "try_from_slice", "from_hex", "try_from_hex", "from_str", "parse", "default", "zeroed", "zero", "empty", "from_key", "try_from_key", "from_raw",
+                      "from_array", "with_key", "create", "build", "builder", "of", "wrap", "from_seed", "from_secret", "from_public", "from_pem", "from_der",
+                      "from_pkcs8", "from_base64", "decode", "deserialize", "load", "open", "unchecked", "new_unchecked", "from_unchecked", "clone_from", "to_owned"]
+# names that resolve for every type (blanket impls, AsRef on the key types): not constructors of a forbidden type
+UNIVERSAL_NAMES = {"as_ref", "from", "try_from", "into", "try_into", "borrow", "borrow_mut", "type_id"}
+
+
+def harvested_names():
+    import glob
+    import re
+    names = set(CONVENTIONAL_NAMES)
+    for f in glob.glob(os.path.join(REPO, "src", "**", "*.rs"), recursive=True):
+        try:
+            text = open(f, errors="replace").read()
+        except OSError:
+            continue
+        for m in re.finditer(r"\bfn\s+([a-z_][a-z0-9_]*)", text):
+            names.add(m.group(1))
+    return sorted(n for n in names if len(n) < 48 and not n.startswith("test_") and n != "main")
+
+
+def forbidden_types():
+    out = []
+    for kind, v, purpose, ty in table_targets():
+        typed_ok = (kind in ("sym", "nonce") and purpose == "Local") or (kind in ("priv", "pub") and purpose == "Public")
+        if not typed_ok:
+            out.append((kind, v, purpose, ty))
+    return out
+
+
+def assoc_programs(names):
+    out = []
+    for kind, v, purpose, ty in forbidden_types():
+        body = "".join("fn p_%d() { let _ = <%s>::%s; }\n" % (i, ty, n) for i, n in enumerate(names))
+        p = P("assoc_%s_v%d_%s" % (kind, v, purpose.lower()), "associated-functions", "#![allow(unused)]\nuse rusty_paseto::prelude::*;\n" + body + "fn main() {}\n", None,
+              "associated functions of %s: %d names tried" % (ty, len(names)))
+        p.ty = ty
+        p.names = names
+        out.append(p)
+    return out
+
+
+def assoc_existing(p):
+    """names for which `<T>::name` resolved (no error on their line except 'type annotations needed')"""
+    bad = {}
+    for code, line in ERROR_LINES.get(p.ident, []):
+        i = line - 3
+        if 0 <= i < len(p.names):
+            bad.setdefault(p.names[i], set()).add(code)
+    return [n for n in p.names if not (bad.get(n, set()) - {"E0282", "E0283", "E0284"})]
+
+
+CONSTRUCTOR_ARGS = ["", "Key::<32>::from([0u8; 32])", "&Key::<32>::from([0u8; 32])", "Key::<64>::from([0u8; 64])", "&Key::<64>::from([0u8; 64])", "&Key::<48>::from([0u8; 48])",
+                    "&Key::<49>::from([2u8; 49])", "[0u8; 32]", "&[0u8; 32]", "&[0u8; 32][..]", "vec![0u8; 32]", "\"00\"", "String::new()"]
+
+
+def constructor_forms(ty, name):
+    forms = []
+    for a in CONSTRUCTOR_ARGS:
+        forms.append("let _: %s = <%s>::%s(%s);" % (ty, ty, name, a))
+        forms.append("let _: %s = <%s>::%s(%s).unwrap();" % (ty, ty, name, a))
+    return forms
+
+
 CARGO_TOML = """[package]
 name = "pv_c19"
 version = "0.0.0"
@@ -463,10 +534,13 @@ edition = "2021"
 publish = false
 
 [dependencies]
-rusty_paseto = { path = "%s", default-features = false, features = ["batteries_included", "v1_local", "v2_local", "v3_local", "v4_local", "v1_public", "v2_public", "v3_public", "v4_public"] }
+rusty_paseto = { path = "%s", default-features = false, features = ["default", "batteries_included", "v1_local", "v2_local", "v3_local", "v4_local", "v1_public", "v2_public", "v3_public", "v4_public"] }
 
 [workspace]
 """
+
+
+ERROR_LINES = {}
 
 
 def run_cargo(pkg, target, bins=None):
@@ -502,6 +576,9 @@ def run_cargo(pkg, target, bins=None):
             t = m["target"]["name"]
             code = (msg.get("code") or {}).get("code")
             errors.setdefault(t, []).append((code, msg.get("message", "")))
+            for sp in msg.get("spans", []):
+                if sp.get("is_primary"):
+                    ERROR_LINES.setdefault(t, []).append((code, sp.get("line_start", 0)))
     return compiled, errors, lib_ok, p.stderr
 
 
@@ -538,6 +615,8 @@ def prepare(pkg, programs):
 
 def judge(p, compiled, errors):
     """-> (status, detail). status: ok | violation | generator-error"""
+    if p.must_compile is None:
+        return "ok", ""  # associated-function tables: judged by stage 2 (see main)
     did = p.ident in compiled
     errs = errors.get(p.ident, [])
     if p.must_compile:
@@ -592,7 +671,7 @@ def main():
     results = [(p,) + judge(p, compiled, errors) for p in fam]
     if tier == "thorough":
         # cross-check the JSON attribution: every program that must be rejected is compiled again on its own
-        negatives = [p for p in fam if not p.must_compile]
+        negatives = [p for p in fam if p.must_compile is False]
         for i in range(0, len(negatives), 40):
             chunk = negatives[i:i + 40]
             c2, e2, _, _ = run_cargo(pkg, target, bins=[p.ident for p in chunk])
@@ -601,6 +680,25 @@ def main():
                 for j, r in enumerate(results):
                     if r[0] is p and r[1] == "ok" and st2 != "ok":
                         results[j] = (p, st2, "isolated re-check: " + d2)
+    # associated functions of the forbidden types: names beyond the universal ones are called in constructor forms
+    assoc = [p for p in fam if p.group == "associated-functions"]
+    stage2 = []
+    extra_names = {}
+    for p in assoc:
+        for n in assoc_existing(p):
+            if n not in UNIVERSAL_NAMES:
+                extra_names.setdefault(p.ident, []).append(n)
+                for k, form in enumerate(constructor_forms(p.ty, n)):
+                    q = P("ctor_%s_%s_%02d" % (p.ident[6:], n, k), "associated-functions", prog([form]), False,
+                          "%s constructed through the associated function `%s`: %s" % (p.ty, n, form))
+                    stage2.append(q)
+    if stage2:
+        prepare(pkg, stage2)
+        c3, e3, _, _ = run_cargo(pkg, target)
+        for q in stage2:
+            st, d = judge(q, c3, e3)
+            if st == "violation":
+                results.append((q, st, d))
     gen_errors = [(p, d) for p, st, d in results if st == "generator-error"]
     violations = []
     for p, st, d in results:
@@ -634,10 +732,12 @@ def main():
         if st == "ok" and not p.must_compile:
             for c in d.split(","):
                 codes[c] = codes.get(c, 0) + 1
-    negatives = [p for p in fam if not p.must_compile]
+    negatives = [p for p in fam if p.must_compile is False]
     samples = [{"program": p.ident, "what": p.what, "must_compile": p.must_compile, "observed": st + (" " + d if d else ""), "source": p.source} for p, st, d in (results[:2] + results[len(results) // 2:len(results) // 2 + 2] + results[-2:])]
     table_true = sum(getattr(p, "rows", (0, 0))[0] for p in fam)
     table_false = sum(getattr(p, "rows", (0, 0))[1] for p in fam)
+    by_group["associated-functions/names-tried-per-type"] = len(assoc[0].names) if assoc else 0
+    by_group["associated-functions/names-beyond-the-universal-ones"] = sum(len(v) for v in extra_names.values())
     by_group["conversion-table/rows-that-must-exist"] = table_true
     by_group["conversion-table/rows-that-must-not-exist"] = table_false
     cov = {
@@ -648,6 +748,7 @@ def main():
                 "Oracle: compiles iff X == Y and the operation belongs to X's purpose (assertions iff V in {3,4}; key constructors iff the documented size). "
                 "Conversion table: for each of the 32 typed key / nonce types (4 kinds x 4 versions x 2 purposes), whether From<S> / TryFrom<S> exists for S in {Key<N>, &Key<N>, &mut Key<N>, [u8; N], &[u8; N] : N = 1..130 (thorough 520)}, byte slices, vectors, text, and every other typed key by value and by reference - each row decided by rustc through trait probing inside a const assertion; "
                 "rows that must not exist: every source for a symmetric key or nonce of purpose Public and an asymmetric key of purpose Local, fixed-size material of a wrong length, any typed key into another; rows that must exist: the documented form of the right length; other spellings of the right length and variable-size material are not judged. "
+                "Associated functions: for each of the 16 types that must not be constructible (symmetric key / nonce of purpose Public, asymmetric keys of purpose Local), `let _ = <T>::name;` for every function name occurring in the library's own source plus 45 conventional constructor names - it compiles iff an associated function of that name exists for T; a name beyond as_ref / from / try_from / into / try_into is then called in 26 constructor forms (no argument, key material of every size, arrays, slices, text; plain and .unwrap()): none may type-check. "
                 "Non-trivial = programs / rows that must be rejected; distinct by source text.",
         "samples": samples,
         "exhaustive": True,
